@@ -127,7 +127,44 @@ func isDistributive(expr *parser.Expr) bool {
 		if _, ok := distributiveAggregations[aggr.Op]; !ok {
 			return false
 		}
+		// A parameter which is not a constant would be evaluated by each
+		// remote engine over its own partition only.
+		if aggr.Param != nil && !isConstant(aggr.Param) {
+			return false
+		}
+	case *parser.Call:
+		// A function can be evaluated by each remote engine on its own if it maps
+		// every input series to an output series independently of all other series.
+		if aggr.Func.ReturnType != parser.ValueTypeVector {
+			return false
+		}
+		switch aggr.Func.Name {
+		case "histogram_quantile", "vector", "absent", "absent_over_time", "sort", "sort_desc":
+			return false
+		}
+		for _, arg := range aggr.Args {
+			switch arg.Type() {
+			case parser.ValueTypeVector, parser.ValueTypeMatrix:
+			default:
+				if !isConstant(arg) {
+					return false
+				}
+			}
+		}
 	}
 
 	return true
+}
+
+// isConstant returns true for literals, which have the same value in every engine.
+func isConstant(expr parser.Expr) bool {
+	switch e := expr.(type) {
+	case *parser.NumberLiteral, *parser.StringLiteral:
+		return true
+	case *parser.ParenExpr:
+		return isConstant(e.Expr)
+	case *parser.StepInvariantExpr:
+		return isConstant(e.Expr)
+	}
+	return false
 }
